@@ -4,7 +4,7 @@ import gspec
 from refharness import go_bytes_str, alphabet_for
 
 
-def rel_src(case_id, a_rel, b_rel, alphabet, props, state_keys=None, uses_fault=False, entries=("",), budget_exprs=0):
+def rel_src(case_id, a_rel, b_rel, alphabet, props, state_keys=None, uses_fault=False, entries=("",), budget_exprs=0, left_rec=False):
     state_keys = state_keys or {}
     s = []
     s.append("package hx\n\n")
@@ -184,8 +184,9 @@ func Harness_C06(n int) {
 	if withStats {
 		opts = append(opts, pb.Statistics(&st, "no match"))
 	}
-	if memo {
-		// engine monitor: no (expression, offset) pair is evaluated twice (natively a no-op)
+	if memo && !symLeftRec {
+		// engine monitor: no (expression, offset) pair is evaluated twice (natively a no-op);
+		// not for left-recursive parsers, whose growth loop re-evaluates by design
 		symMonitor("expronce")
 	}
 	b := runB(in, "", opts...)
@@ -194,13 +195,13 @@ func Harness_C06(n int) {
 	symAssert(a.panicked == b.panicked, "C06: one run panicked")
 	symAssert(symEqual(a.v, b.v), "C06: value differs under Memoize/Debug/Statistics")
 	symAssert(a.hasErr == b.hasErr, "C06: error presence differs")
-	if memo && withStats {
+	if memo && withStats && !symLeftRec {
 		symAssert(st.ExprCnt <= uint64(symExprs*(n+1)), "C06: more expressions evaluated than |exprs|*(n+1) under Memoize")
 	}
 	symReach("end")
 }
 ''')
-        s.append("const symExprs = %d\n" % budget_exprs)
+        s.append("const symExprs = %d\nconst symLeftRec = %s\n" % (budget_exprs, "true" if left_rec else "false"))
     if "TWIN" in props:
         s.append('''
 func Harness_TWIN(n int) {
